@@ -97,16 +97,21 @@ Print Assumptions C30_is_code_iff_reach.
 Example C30_nonvacuous :
   let code := [97; 91; 91; 91; 127; 91]%N in
   forallb is_byte code = true /\
-  codeBitmap code = Ok [198; 255; 255; 255; 31]%N /\
+  codeBitmap code = Ok [230; 255; 255; 255; 31]%N /\
   map (is_code code) (seq 0 6) = [true; false; false; true; true; false] /\
   map (fun d => fst (fst (validJumpdest (new_contract code 0%N) cache_empty d)))
       [1; 3; 5; 6; 2 ^ 64 + 3]%N = [Ok false; Ok true; Ok false; Ok false; Ok false] /\
   contract_ok (fun c => N.of_nat (length c) + 1)%N (fun c => c = code)
               (new_contract code 7%N) /\
   fst (fst (validJumpdest (new_contract code 7%N)
-              (cache_store cache_empty 7%N [198; 255; 255; 255; 31]%N) 3%N)) = Ok true.
+              (cache_store cache_empty 7%N [230; 255; 255; 255; 31]%N) 3%N)) = Ok true.
 Proof.
-  cbv zeta. repeat split; try (vm_compute; reflexivity).
-  - intros _. reflexivity.
-  - intros a E. discriminate.
+  cbv zeta.
+  split; [vm_compute; reflexivity|]. split; [vm_compute; reflexivity|].
+  split; [vm_compute; reflexivity|]. split; [vm_compute; reflexivity|].
+  split.
+  - unfold contract_ok, new_contract; cbn [c_code c_hash c_analysis].
+    split; [vm_compute; reflexivity|]. split; [vm_compute; reflexivity|].
+    split; [intros _; split; [reflexivity | vm_compute; reflexivity] | intros a E; discriminate].
+  - vm_compute; reflexivity.
 Qed.
